@@ -25,6 +25,9 @@ struct Key {
     parts: usize,
 }
 
+/// aux class: a buffer that key generation filled for the SAME seed under another parameter list
+const SAME_SEED: &str = "same-seed-other-parameter-list";
+
 struct Baseline {
     sk: Vec<u8>,
     vk: Vec<u8>,
@@ -57,7 +60,9 @@ fn check_keygen(w: &mut Worker, e: &Env, class: &str, detail: &str, buf: Vec<u8>
     let r = &mut w.report;
     r.eval();
     r.count("keygen_with_aux", 1);
-    let key = |what: &str| format!("C10:keygen:{what}:{}:{}:{class}", e.k.alg.name(), e.lvs);
+    // the same-seed class is keyed without hash and shape: it is one recorded finding (the aux MAC
+    // is keyed by the seed only, in hash-sigs as well), not one per key
+    let key = |what: &str| if class == SAME_SEED { format!("C10:keygen:{what}:{class}") } else { format!("C10:keygen:{what}:{}:{}:{class}", e.k.alg.name(), e.lvs) };
     match &out {
         Out::Ok(kp) => {
             if kp.vk != e.base.vk || kp.sk != e.base.sk {
@@ -86,7 +91,7 @@ fn check_sign(w: &mut Worker, e: &Env, class: &str, detail: &str, buf: &[u8], en
         let r = &mut w.report;
         r.eval();
         r.count("sign_with_aux", 1);
-        let key = |what: &str| format!("C10:sign:{what}:{}:{}:{class}", e.k.alg.name(), e.lvs);
+        let key = |what: &str| if class == SAME_SEED { format!("C10:sign:{what}:{class}") } else { format!("C10:sign:{what}:{}:{}:{class}", e.k.alg.name(), e.lvs) };
         let next = match entry {
             SignEntry::Bytes => rec.cb_args.first().cloned(),
             _ => rec.key_after.clone(),
@@ -435,6 +440,38 @@ fn run_key(k: Key, w: &mut Worker, ctx: &Ctx, tool: Option<&RefTool>) {
         check_keygen(w, &e, "filled-by-sign-of-other-key", "exact", sb.clone());
         check_sign(w, &e, "filled-by-sign-of-other-key", "exact", &sb, SignEntry::Bytes);
     }
+    // 9. a buffer that key generation filled for the same seed under another parameter list
+    // (another Winternitz parameter, another height, another number of levels): it carries a valid
+    // MAC for this seed, and the statement still demands the aux-less result
+    {
+        let mut others: Vec<Vec<Level>> = Vec::new();
+        let mut o = k.levels.clone();
+        o[0].w = if o[0].w == 8 { 4 } else { 8 };
+        others.push(o);
+        let mut o = k.levels.clone();
+        o[0].h = if o[0].h == 5 { crate::common::h2() } else { 5 };
+        if o[0].h != k.levels[0].h {
+            others.push(o);
+        }
+        if k.levels.len() > 1 {
+            others.push(k.levels[..1].to_vec());
+        }
+        for (oi, olv) in others.iter().enumerate() {
+            if !mine(&mut item) || k.light {
+                continue;
+            }
+            let mut oa = AuxBuf::new(vec![0u8; used + 200]);
+            if !libcall::keygen(k.alg, olv, &k.seed, Some(&mut oa)).is_ok() {
+                continue;
+            }
+            let ob = oa.used_part().to_vec();
+            let detail = format!("filled-for={}", model::params::levels_to_string(olv));
+            w.report.count("same_seed_other_parameter_buffers", 1);
+            check_keygen(w, &e, SAME_SEED, &detail, ob.clone());
+            check_sign(w, &e, SAME_SEED, &detail, &ob, SignEntry::Bytes);
+            let _ = oi;
+        }
+    }
     // 8. a buffer filled by this key's sign rather than keygen, then re-used
     for len in [used, used + 10, used / 2 + 3] {
         if !mine(&mut item) {
@@ -499,7 +536,7 @@ pub fn run(ctx: &Ctx) -> Report {
     let tool = RefTool::new(ctx, "c10");
     let tool_ref = tool.as_ref();
     let mut rep = par_run(ctx, keys, |k, w| run_key(k, w, ctx, tool_ref));
-    rep.rule = "per (hash, key shape, seed): the aux-less keygen and sign results (counters 0, 1, first roll-over, last) are the baseline; keygen and sign are repeated with aux buffers of every length 0..used+40 zeroed, the valid buffer truncated at every length / padded with zeros or noise, every single bit flipped (exhaustive for the n=16 H5 and the H2 keys, all level-word and MAC bits + sample otherwise), the level word replaced (single-bit neighbours, 0, all ones, levels above the tree, bits 26..30), garbage with zero and non-zero first byte, valid buffers of other seeds (exact, MAC cut, zero padded), buffers set up by sign instead of keygen; any difference to the baseline, any error/panic, any write beyond the used length is a violation; fresh buffers are compared with the model's hash-sigs layout and (SHA-256/32) with the tool's .aux file; \
+    rep.rule = "per (hash, key shape, seed): the aux-less keygen and sign results (counters 0, 1, first roll-over, last) are the baseline; keygen and sign are repeated with aux buffers of every length 0..used+40 zeroed, the valid buffer truncated at every length / padded with zeros or noise, every single bit flipped (exhaustive for the n=16 H5 and the H2 keys, all level-word and MAC bits + sample otherwise), the level word replaced (single-bit neighbours, 0, all ones, levels above the tree, bits 26..30), garbage with zero and non-zero first byte, valid buffers of other seeds (exact, MAC cut, zero padded), buffers set up by sign instead of keygen, buffers filled by keygen for the same seed under another parameter list; any difference to the baseline, any error/panic, any write beyond the used length is a violation; fresh buffers are compared with the model's hash-sigs layout and (SHA-256/32) with the tool's .aux file; \
                 distinct_nontrivial = distinct (hash, operation, corruption class, offset/length)"
         .into();
     if rep.counter("layout_matches") == 0 {
@@ -511,7 +548,7 @@ pub fn run(ctx: &Ctx) -> Report {
     if rep.counter("single_bit_corruptions") == 0 {
         rep.inconclusive("no single-bit corruption exercised");
     }
-    rep.assumptions.push("buffers that carry a valid MAC for this seed because the same seed was used with another parameter list are legitimate cache contents by the property's own trust rule and are not generated as hostile input".into());
+    rep.assumptions.push("buffers that key generation filled for the same seed under another parameter list carry a valid MAC (the MAC is keyed by the seed only, as in hash-sigs) and are read back: recorded as a known finding, keyed without hash and shape".into());
     shared::add_assumptions(&mut rep);
     rep
 }
